@@ -185,8 +185,25 @@ TRIGGER_OF = {
 }
 
 
-def history_triggers(cookies) -> set:
-    """`cookies`: every cookie the reference stored (even if it expired at once), in order."""
+def _coexist(a, b) -> bool:
+    """Were both in the store during some operation (inclusive: the jar removes expired cookies lazily, at the
+    end of the call that notices them)?"""
+
+
+    def death(c):
+        # under T_MAXAGE the jar never expires the cookie: it stays until replaced or cleared
+        if c.died_epoch is None or (c.died_reason == "expired" and c.expiry_source == "expires+invalid-max-age"):
+            return 1 << 60
+        return c.died_epoch
+
+    return a.born_epoch <= death(b) and b.born_epoch <= death(a)
+
+
+def history_triggers(cookies, precise: bool = False) -> set:
+    """`cookies`: every cookie the reference stored (even if it expired at once), in order.  precise=False (the
+    generator): patterns over the whole history, an over-approximation.  precise=True (the classifier): the two
+    cookies of a pattern must have been in the store during a common operation."""
+    co = _coexist if precise else (lambda a, b: True)
     out = set()
     by_dn: dict = {}
     for c in cookies:
@@ -196,22 +213,23 @@ def history_triggers(cookies) -> set:
     for lst in by_dn.values():
         if len(lst) < 2:
             continue
-        paths = {c.path for c in lst}
-        any_ho = any(c.host_only for c in lst)
-        if any_ho and len(paths) > 1:
-            out.add(T_F11)
-        if any_ho and not all(c.host_only for c in lst):
-            out.add(T_HOSTONLY_MIX)
-        if len({p.rstrip("/") for p in paths}) < len(paths):
-            out.add(T_SLASH)
-        deadline_seen = set()
-        for c in lst:
-            slot = c.path.rstrip("/")
-            if c.expiry == R.INF:
-                if slot in deadline_seen:
-                    out.add(T_STALE)
-            else:
-                deadline_seen.add(slot)
+        for j, b in enumerate(lst):
+            # the jar schedules no deadline for b: no Max-Age/Expires, or an Expires it does not use because an
+            # invalid Max-Age stands next to it (T_MAXAGE)
+            b_no_deadline = b.expiry == R.INF or b.expiry_source == "expires+invalid-max-age"
+            for a in lst[:j]:
+                if not co(a, b):
+                    continue
+                if a.path != b.path and (a.host_only or b.host_only):
+                    out.add(T_F11)
+                if a.host_only != b.host_only:
+                    out.add(T_HOSTONLY_MIX)
+                if a.path.rstrip("/") == b.path.rstrip("/"):
+                    if a.path != b.path:
+                        out.add(T_SLASH)
+                    a_deadline = not (a.expiry == R.INF or a.expiry_source == "expires+invalid-max-age")
+                    if a_deadline and b_no_deadline:
+                        out.add(T_STALE)
     return out
 
 
@@ -478,29 +496,17 @@ def gen_history(rng: random.Random, stratum: str) -> dict:
     return {"stratum": stratum, "opts": opts, "ops": ops, "sweep": True, "_kinds": kinds}
 
 
-def single_cookie_cases(tier: str):
-    """The single-cookie sub-space, enumerated: response host x response path x Domain attribute x Path attribute
-    x Secure x unsafe; each followed by the sweep of all 110 lattice URLs."""
+def single_cookie_cases():
+    """The single-cookie sub-space, enumerated completely: response host x response path x Domain attribute x
+    Path attribute x Secure x unsafe (26 180 jars); each is followed by the sweep of all 110 lattice URLs."""
     dom_choices = [None] + [bare(h) for h in HOSTS] + [".example.com", "example.com.", ".www.example.com", "le.com", "0.0.1"]
     path_choices = [None, "/", "/x", "/x/", "/x/y", "/xy", "x"]
     for host in HOSTS:
         for unsafe in (False, True):
-            if not unsafe and R.is_ip(bare(host)) and tier == "quick":
-                rpaths_ip = ["/x/y"]
-            else:
-                rpaths_ip = None
             for d in dom_choices:
                 for pa in path_choices:
-                    if pa is None or pa == "x":
-                        rpaths = PATHS
-                    else:
-                        rpaths = PATHS if tier != "quick" else ["/x/y"]
-                    if rpaths_ip is not None:
-                        rpaths = rpaths_ip
-                    for rp in rpaths:
+                    for rp in PATHS:
                         for sec in (False, True):
-                            if tier == "quick" and sec and (pa not in (None, "/x")):
-                                continue
                             parts = ["a=k1"]
                             if d is not None:
                                 parts.append("Domain=" + d)
@@ -535,6 +541,7 @@ class Exec:
         self.lost: dict = {}  # id -> classification of how the jar lost a cookie the reference holds
         self.nontrivial_store = False
         self.nontrivial_sent = False
+        self.what = "filter_cookies(%s)"
         self.opts = dict(case["opts"])
         self.jar = self._new_jar(self.opts)
         self.ref = R.RefCookieStore(
@@ -553,6 +560,7 @@ class Exec:
         rec = self.rec
         for i, op in enumerate(self.case["ops"]):
             k = op["op"]
+            self.ref.epoch = i
             rec.count("op:" + k)
             if k == "set":
                 self._do_set(i, op, URL)
@@ -575,7 +583,7 @@ class Exec:
             if k != "advance":
                 self.track(i, op)
         if self.case.get("sweep"):
-            n = len(self.case["ops"])
+            n = self.ref.epoch = len(self.case["ops"])
             for u in SWEEP:
                 self.judge(n, u, self._filter(u, URL))
             rec.count("sweep-queries", len(SWEEP))
@@ -698,12 +706,16 @@ class Exec:
         """Structural patterns of the history so far under which the listed findings arise.  A violation whose
         pattern is absent gets the suffix ':without-known-trigger' and can therefore never be matched by a listed
         mechanism (the clean stratum has none of the patterns by construction)."""
-        return history_triggers([o for o, _ in self.history])
+        return history_triggers([o for o, _ in self.history], precise=True)
 
     # -- the oracle ----------------------------------------------------------------------------
-    def judge(self, i, url, got):
+    def judge(self, i, url, got, present=None, host_only=None):
+        """got: [(mapping key, morsel key, value)] the jar (or the wire) sent for url.  present / host_only: the
+        jar's store (value -> ...) and host-only set at the moment of the query, when they were snapshotted."""
         rec = self.rec
         ref = self.ref
+        jar_present = present
+        jar_host_only = host_only
         rec.count("queries")
         expected = ref.cookies_for(url)
         by_value = {c.value: c for c in ref.cookies.values()}
@@ -746,7 +758,7 @@ class Exec:
                 self.viol.append(
                     (
                         self._final(mech),
-                        f"filter_cookies({url}) returned {name}={value} (set by {info and info['header']!r} from {info and info['url']}): {why}",
+                        f"{self.what % url} returned {name}={value} (set by {info and info['header']!r} from {info and info['url']}): {why}",
                         {"op_index": i, "url": url, "value": value},
                     )
                 )
@@ -771,29 +783,35 @@ class Exec:
                         pass  # already reported by the soundness check above
                     elif len(w.path) >= len(c.path):
                         rec.count("agree:expected-name-sent(other-instance,path-not-shorter)")
-                    elif c.value in self.lost or c.value not in self.jar_ids():
+                    elif c.value in self.lost or c.value not in (jar_present if jar_present is not None else self.jar_ids()):
                         # the reference's first choice is not in the jar (a miss of a listed kind, or of a new
                         # kind); it is not observable here because the name is sent: counted, named by its cause
                         rec.count("info:one-per-name-hides-" + self.lost.get(c.value, "miss:not-in-jar-store"))
+                    elif not c.host_only and host != c.domain and (c.domain, c.name) in (
+                        jar_host_only if jar_host_only is not None else self.jar.host_only_cookies
+                    ):
+                        rec.count("info:one-per-name-hides-miss:domain-cookie-treated-as-host-only")
                     elif len(w.domain) > len(c.domain):
                         rec.count("info:one-per-name-winner-has-longer-domain-and-shorter-path")
                     else:
-                        rec.count("info:one-per-name-winner-has-shorter-path-on-same-domain")
+                        rec.count("info:one-per-name-winner-unexplained")
                 continue
-            present = self.jar_ids()
+            present = jar_present if jar_present is not None else self.jar_ids()
             mech = self.lost.get(c.value)
             if mech is None:
                 if c.value not in present:
                     # it was still in the jar's store after the previous op: this very filter_cookies removed it
                     mech = self.lost[c.value] = self._classify_loss(c, i, {"op": "query"}, present)
-                elif not c.host_only and (c.domain, c.name) in self.jar.host_only_cookies:
+                elif not c.host_only and (c.domain, c.name) in (
+                    jar_host_only if jar_host_only is not None else self.jar.host_only_cookies
+                ):
                     mech = "miss:domain-cookie-treated-as-host-only"
                 else:
                     mech = "miss:stored-cookie-not-sent"
             self.viol.append(
                 (
                     self._final(mech),
-                    f"filter_cookies({url}) did not return {c.name}: reference sends {c.name}={c.value} {c.describe()} (set by {self.ids[c.value]['header']!r} from {self.ids[c.value]['url']})",
+                    f"{self.what % url} did not return {c.name}: reference sends {c.name}={c.value} {c.describe()} (set by {self.ids[c.value]['header']!r} from {self.ids[c.value]['url']})",
                     {"op_index": i, "url": url, "value": c.value},
                 )
             )
@@ -859,12 +877,14 @@ def strip_case(case):
     return {k: v for k, v in case.items() if not k.startswith("_")}
 
 
-def shrink(case, mech, tmpdir):
+def shrink(case, mech, tmpdir, runner=None):
     """Greedy ddmin over ops and headers keeping `mech`; the sweep is replaced by the one failing query."""
+
+    runner = runner or execute
 
     def fails(c):
         try:
-            _, v = execute(c, None, tmpdir, count=False)
+            _, v = runner(c, None, tmpdir, count=False)
         except Exception:
             return None
         for m, s, d in v:
@@ -911,10 +931,11 @@ def shrink(case, mech, tmpdir):
     return cur
 
 
-def run_case(case, rec, tmpdir, reported: dict, sample_every=0):
+def run_case(case, rec, tmpdir, reported: dict, sample_every=0, runner=None):
+    runner = runner or execute
     key = strip_case(case)
     try:
-        ex, v = execute(case, rec, tmpdir)
+        ex, v = runner(case, rec, tmpdir)
     except Exception as e:  # the jar raised: nothing about this history can be judged
         import traceback
 
@@ -942,9 +963,9 @@ def run_case(case, rec, tmpdir, reported: dict, sample_every=0):
         reported[mech] = n + 1
         w = key
         if n < 4:
-            w = shrink(case, mech, tmpdir)
+            w = shrink(case, mech, tmpdir, runner)
             try:
-                ex2, v2 = execute(w, None, tmpdir, count=False)
+                ex2, v2 = runner(w, None, tmpdir, count=False)
                 s2 = next((s for m, s, _ in v2 if m == mech), summ)
             except Exception:
                 s2 = summ
@@ -989,7 +1010,7 @@ def shards(tier, seed):
     out = []
     if tier == "quick":
         plan = [("clean", 6, 3000), ("free", 4, 3000), ("stress", 3, 3000)]
-        n_single, n_wire, per_wire = 2, 1, 400
+        n_single, n_wire, per_wire = 2, 1, 2000
     else:
         plan = [("clean", 28, 30000), ("free", 20, 30000), ("stress", 12, 30000)]
         n_single, n_wire, per_wire = 6, 6, 6000
@@ -1022,7 +1043,7 @@ def run_shard(spec, rec):
                 run_case(gen_history(rng, kind), rec, tmpdir, reported, sample_every=401)
         elif kind == "single":
             n = 0
-            for idx, case in enumerate(single_cookie_cases(spec["tier"])):
+            for idx, case in enumerate(single_cookie_cases()):
                 if idx % spec["parts"] != spec["part"]:
                     continue
                 n += 1
@@ -1030,8 +1051,6 @@ def run_shard(spec, rec):
             rec.count("single-cookie-cases", n)
             rec.set_exhaustive("single-cookie-lattice", True)
         elif kind == "wire":
-            from props.c16_cookies import wire_shard
-
             wire_shard(spec, rng, rec, tmpdir, reported)
         else:
             raise ValueError(kind)
@@ -1039,8 +1058,191 @@ def run_shard(spec, rec):
         shutil.rmtree(tmpdir, ignore_errors=True)
 
 
+# --------------------------------------------------------------------------------------------------
+# wire stratum: the same histories through a real ClientSession; the Cookie header is read off the wire
+
+
+class _WireScript:
+    def __init__(self):
+        self.headers: list = []
+        self.log: list = []
+        self.on_request = None
+
+
+def _make_server(script):
+    import asyncio
+
+    class CookieServer(asyncio.Protocol):
+        """Scripted origin server (no aiohttp code): logs each request head, answers 200 with the Set-Cookie
+        headers the history prescribes for this exchange."""
+
+        def connection_made(self, tr):
+            self.tr = tr
+            self.buf = b""
+
+        def data_received(self, data):
+            self.buf += data
+            while b"\r\n\r\n" in self.buf:
+                head, _, self.buf = self.buf.partition(b"\r\n\r\n")
+                script.log.append(head)
+                if script.on_request is not None:
+                    script.on_request()
+                out = [b"HTTP/1.1 200 OK", b"Content-Length: 0"]
+                out += [b"Set-Cookie: " + h.encode("ascii") for h in script.headers]
+                self.tr.write(b"\r\n".join(out) + b"\r\n\r\n")
+
+        def eof_received(self):
+            return False
+
+        def connection_lost(self, exc):
+            pass
+
+        def pause_writing(self):
+            pass
+
+        def resume_writing(self):
+            pass
+
+    return CookieServer()
+
+
+def wire_cookies(head: bytes):
+    """[(name, name, value)] from the Cookie header line(s) of a request head."""
+    got = []
+    for line in head.split(b"\r\n")[1:]:
+        n, _, v = line.partition(b":")
+        if n.strip().lower() == b"cookie":
+            for pair in v.decode("latin1").split(";"):
+                pair = pair.strip()
+                if pair:
+                    k, _, val = pair.partition("=")
+                    got.append((k, k, val))
+    return got
+
+
+class WireExec(Exec):
+    def __init__(self, case, rec, tmpdir, world, count=True):
+        super().__init__(case, rec, tmpdir, count)
+        self.world = world
+        self.what = "Cookie header on the wire of GET %s"
+
+    def run(self):
+        CLOCK.now = T0
+        self.world.call(self._arun(), max_iters=400_000)
+        return self.viol
+
+    async def _arun(self):
+        from vlib.harness import MemConnector, aiohttp
+
+        script = _WireScript()
+        snap: dict = {}
+
+        def on_request():
+            # the request is on the wire: filter_cookies has run, the response has not been processed yet
+            snap["present"] = self.jar_ids()
+            snap["host_only"] = set(self.jar.host_only_cookies)
+
+        script.on_request = on_request
+        conn = MemConnector(lambda req: _make_server(script), loop=self.world.loop)
+        session = aiohttp.ClientSession(connector=conn, cookie_jar=self.jar)
+        rec = self.rec
+        try:
+            ops = list(self.case["ops"])
+            for i, op in enumerate(ops):
+                k = op["op"]
+                self.ref.epoch = i
+                rec.count("wire-op:" + k)
+                if k in ("set", "query"):
+                    script.headers = list(op.get("headers", ()))
+                    n0 = len(script.log)
+                    async with session.get(op["url"]) as resp:
+                        await resp.read()
+                        final_url = str(resp.url)
+                    if len(script.log) != n0 + 1:
+                        raise RuntimeError(f"wire harness: {len(script.log) - n0} requests seen for one GET")
+                    rec.count("wire-requests")
+                    self.judge(i, op["url"], wire_cookies(script.log[-1]), snap.get("present"), snap.get("host_only"))
+                    for h in script.headers:
+                        p = R.parse_set_cookie(h)
+                        out = self.ref.set_cookie(h, final_url)
+                        rec.count("ref-set:" + out.status + (":" + out.reason if out.reason else ""))
+                        if p is not None:
+                            self.ids[p.value] = {"op": i, "header": h, "url": op["url"], "name": p.name}
+                            self.outcome[p.value] = out
+                        if out.status == "stored":
+                            self.nontrivial_store = True
+                        if out.cookie is not None and out.status != "ignored":
+                            self.history.append((out.cookie, i))
+                elif k == "advance":
+                    CLOCK.now += op["dt"]
+                elif k == "clear":
+                    self.jar.clear()
+                    self.ref.clear()
+                elif k == "clear_pred":
+                    self._do_clear_pred(op)
+                elif k == "clear_domain":
+                    self.jar.clear_domain(op["domain"])
+                    self.ref.clear_domain(op["domain"])
+                elif k == "saveload":
+                    # a session keeps its jar: save, then load into the same jar ("replaces the current contents")
+                    path = os.path.join(self.tmpdir, "jar.json")
+                    self.jar.save(path)
+                    self.jar.load(path)
+                    os.unlink(path)
+                else:
+                    raise ValueError(k)
+                if k != "advance":
+                    self.track(i, op)
+        finally:
+            await session.close()
+
+
+def wire_history(rng, base):
+    case = gen_history(rng, base)
+    ops = []
+    for op in case["ops"]:
+        if op["op"] == "saveload":
+            op = {"op": "saveload", "opts": dict(case["opts"])}
+        if op["op"] == "set":
+            op = dict(op, mode="headers")
+        ops.append(op)
+    # no sweep on the wire: a handful of requests over related hosts instead
+    g = Gen(rng, base)
+    g.touched_hosts = [R.split_url(o["url"])[1] for o in ops if o["op"] == "set"]
+    for _ in range(rng.randint(6, 14)):
+        ops.append(g.op_query())
+    return {"stratum": "wire", "wire": True, "base": base, "opts": case["opts"], "ops": ops, "sweep": False, "_kinds": case["_kinds"]}
+
+
+def wire_case(case, rec, tmpdir, reported, world=None):
+    from vlib.harness import World
+
+    own = world is None
+    if own:
+        world = World(0)
+    try:
+        run_case(case, rec, tmpdir, reported, sample_every=97, runner=lambda c, r, t, count=True: _wire_execute(c, r, t, world, count))
+    finally:
+        if own:
+            world.close()
+
+
+def _wire_execute(case, rec, tmpdir, world, count=True):
+    ex = WireExec(case, rec, tmpdir, world, count)
+    v = ex.run()
+    return ex, v
+
+
 def wire_shard(spec, rng, rec, tmpdir, reported):
-    rec.count("wire:not-built")
+    from vlib.harness import World
+
+    world = World(spec["seed"])
+    try:
+        for n in range(spec["n"]):
+            case = wire_history(rng, "clean" if n % 2 else "free")
+            wire_case(case, rec, tmpdir, reported, world)
+    finally:
+        world.close()
 
 
 def replay(witness, rec):
@@ -1056,7 +1258,3 @@ def replay(witness, rec):
             run_case(witness, rec, tmpdir, {})
     finally:
         shutil.rmtree(tmpdir, ignore_errors=True)
-
-
-def wire_case(case, rec, tmpdir, reported):
-    raise NotImplementedError
